@@ -528,6 +528,9 @@ func replayTracker(c *Ctx, op string, a map[string]string) {
 	u32 := func(k string) uint32 { v, _ := strconv.ParseUint(a[k], 10, 32); return uint32(v) }
 	tc := trkCase{pre: splitCodes(a["pre"]), post: splitCodes(a["post"]), iv: i64("iv"), miv: i64("miv")}
 	switch op {
+	case "udp.served":
+		udpServed(c, strings.Split(a["seq"], ","))
+
 	case "trk.http_announce", "trk.http_scrape":
 		hc := httpCase{uri: string(unhx(a["uri"])), spoof: a["spoof"] == "1", hdrName: string(unhx(a["hdrname"])), remoteAddr: string(unhx(a["raddr"])),
 			maxnw: u32("maxnw"), defnw: u32("defnw"), maxsc: u32("maxscrape")}
